@@ -56,7 +56,7 @@ theorem stepOK_of_good {v0 : Nat} {p : Bool} {s s' : State} {e : Ev} (g : Good v
     (h : step (fixed p) s e = some s') :
     StepOK s s' := by
   cases e with
-  | start id base =>
+  | start id base content =>
     simp only [step, fixed] at h
     split at h
     · cases h
